@@ -31,7 +31,7 @@ enum Op : int {
     OP_FILL_GAPS,      // i0 value seed : replace every empty stored frame by a conforming one ("complete frames")
     OP_BULK_FRAMES,    // i0 count, i1 value seed : append count conforming frames (no per-frame observation)
     OP_FRAME_DUP,      // i0 source frame (mod), i1 index mode, i2 raw : hand one of the object's OWN stored frames back to frame() (duplicate it)
-    OP_PARAM_EDIT,     // i0 group (mod), i1 parameter (mod), i2 edit kind ; s0 new description : copy a parameter OUT of the object, edit it through its setters, hand it back
+    OP_PARAM_EDIT,     // i0 group (mod), i1 parameter (mod), i2 edit kind, i3 target selector ; s0 new description, s1 new group name : copy a parameter OUT of the object, edit it through its setters, hand it back (kind 3: hand the object's own parameter, by reference, to another or a new group)
     OP_NOPS
 };
 const char *op_name(int op);
@@ -43,7 +43,7 @@ enum FrameDeviation : int {
 };
 enum ColDeviation : int {
     CDEV_NONE = 0, CDEV_FRAMES_FEWER, CDEV_FRAMES_MORE, CDEV_NO_FRAMES, CDEV_DUP_FIRST, CDEV_DUP_LATER, CDEV_EMPTY_COL,
-    CDEV_SUB_FEWER, CDEV_SUB_MORE, CDEV_SHORT_LATER_FRAME, CDEV_N
+    CDEV_SUB_FEWER, CDEV_SUB_MORE, CDEV_SHORT_LATER_FRAME, CDEV_SHORT_LATER_SUB, CDEV_N
 };
 
 struct Step {
